@@ -305,6 +305,8 @@ def _check_strict(rec, errors):
                     rec.tag("boundary_dense_permuted_view", entry)
                     continue
             bad.setdefault((entry, "non-contiguous-array"), s)
+        elif " elements, C reads/writes " in s:
+            bad.setdefault((entry, "buffer-smaller-than-C-access[%s]" % parts[1]), s)
         else:
             bad.setdefault((entry, "unexpected-dtype"), s)
     rec.require("boundary_strict", not bad, mechanism="boundary:%s:%s" % sorted(bad)[0] if bad else None,
